@@ -183,7 +183,7 @@ func wConfig(prop, tier string) *Config {
 		}
 	case "C12":
 		ops := []string{"bond_lp1_L", "unbond_lp2_half", "unbond_lp1_all", "join_p1_all_t1", "exit_p1_all_t1", "exit_p1_10pct_lp1", "join_p2_all_t1", "exit_p2_all_t1", "llp_open_t1_x3", "llp_close_full_t1", "llp_bot_close_all", "mc_claim_lp1", "commit_eden_lp1", "commit_edenb_lp1", "uncommit_eden_lp1",
-			"vest_eden_lp1", "cancel_vest_lp1", "claim_vesting_lp1", "stake_elys_lp1", "unstake_elys_lp1", "gap_59m", "gap_61m", "price_atom_2", "empty", "exit_p2_all_lp1", "unbond_lp2_all", "estaking_withdraw_lp1", "unstake_elys_lp1_all", "uncommit_eden_lp1_all", "uncommit_edenb_lp1_all", "stake_eden_lp1", "unstake_eden_lp1", "llp_open_t2_x5", "llp_close_full_t2_at_1", "llp_close_full_t1_at_1", "llp_bot_close_all_at_1"}
+			"vest_eden_lp1", "cancel_vest_lp1", "claim_vesting_lp1", "stake_elys_lp1", "unstake_elys_lp1", "gap_59m", "gap_61m", "price_atom_2", "empty", "exit_p2_all_lp1", "unbond_lp2_all", "estaking_withdraw_lp1", "unstake_elys_lp1_all", "uncommit_eden_lp1_all", "uncommit_edenb_lp1_all", "stake_eden_lp1", "unstake_eden_lp1", "unstake_elys_lp1_60pct", "unstake_elys_lp1_90pct", "llp_open_t2_x5", "llp_close_full_t2_at_1", "llp_close_full_t1_at_1", "llp_bot_close_all_at_1"}
 		cfg.Oracles = []*Oracle{OracleC12()}
 		roots016 := []string{"R0", "R1", "R6", "R8"}
 		if thorough {
@@ -236,11 +236,13 @@ func wConfig(prop, tier string) *Config {
 		if thorough {
 			cfg.Phases = []Phase{{Name: "configs+ops-depth3", Roots: roots01, Ops: all, Depth: 3, Dev: 3},
 				{Name: "config-boundaries-depth3", Roots: []string{"R1"}, Ops: append(autoCfgOpNames(), c18Follow...), First: autoCfgOpNames(), Second: c18Follow, Depth: 3, Dev: 3},
+				{Name: "edenb-burn-depth3", Roots: []string{"R8"}, Ops: []string{"unstake_elys_lp1", "unstake_elys_lp1_60pct", "unstake_elys_lp1_90pct", "unstake_elys_lp1_995permille", "unstake_elys_lp1_all", "uncommit_eden_lp1", "uncommit_eden_lp1_all", "uncommit_edenb_lp1_all", "commit_edenb_lp1", "estaking_withdraw_lp1", "stake_elys_lp1", "gap_2d", "nofeed", "empty"}, Depth: 3, Dev: 3},
 				{Name: "epoch-hooks-depth3", Roots: []string{"R11"}, Ops: []string{"gap_1h", "gap_2d", "gap_8d", "gap_40d", "nofeed", "nofeed_2d", "empty", "mc_claim_lp1", "claim_vesting_lp1", "vest_eden_lp1", "fee_tx_uelys", "unstake_elys_lp1", "cfg_es_provider0", "cfg_vest_blocks0"}, Depth: 3, Dev: 3}}
 		} else {
 			cfg.Phases = []Phase{{Name: "configs+ops-depth2", Roots: []string{"R1"}, Ops: all, Depth: 2, Dev: 3},
 				{Name: "fresh-chain-configs-depth2", Roots: []string{"R0"}, Ops: all, First: cfgOps, Depth: 2, Dev: 3},
 				{Name: "config-boundaries-depth2", Roots: []string{"R1"}, Ops: append(autoCfgOpNames(), c18FollowQuick...), First: autoCfgOpNames(), Second: c18FollowQuick, Depth: 2, Dev: 3},
+				{Name: "edenb-burn-depth2", Roots: []string{"R8"}, Ops: []string{"unstake_elys_lp1", "unstake_elys_lp1_60pct", "unstake_elys_lp1_90pct", "unstake_elys_lp1_995permille", "unstake_elys_lp1_all", "uncommit_eden_lp1", "uncommit_eden_lp1_all", "uncommit_edenb_lp1_all", "commit_edenb_lp1", "estaking_withdraw_lp1", "stake_elys_lp1", "gap_2d", "nofeed", "empty"}, Depth: 2, Dev: 3},
 				{Name: "epoch-hooks-depth2", Roots: []string{"R11"}, Ops: []string{"gap_1h", "gap_2d", "gap_8d", "gap_40d", "nofeed", "nofeed_2d", "empty", "mc_claim_lp1", "claim_vesting_lp1", "vest_eden_lp1", "fee_tx_uelys", "unstake_elys_lp1", "cfg_es_provider0", "cfg_vest_blocks0"}, Depth: 2, Dev: 3}}
 		}
 	case "C20":
